@@ -74,10 +74,13 @@ def registry_rules(ctx, rule: str):
     ok = len(loops) == 1 and _src(add, loops[0].iter).replace(" ", "") in ("six.itervalues(registry)", "itervalues(registry)", "registry.values()", "list(registry.values())") and not any(
         isinstance(n, (ast.If, ast.Break, ast.Continue)) for n in ast.walk(loops[0]))
     r.ob(rule + ".combined-union", add.qualname, ok, "add_registry must visit every item of the member unconditionally: `%s`" % (_src(add, loops[0]) if loops else "no loop"), add.where())
-    for name, want in (("__getitem__", "self._data[item]"), ("__iter__", "iter(self._data)"), ("__len__", "len(self._data)"), ("__contains__", "item in self._data")):
+    for name, want, forms in (("__getitem__", "self._data[item]", ("self._data[item]", "self._data.__getitem__(item)")),
+                              ("__iter__", "iter(self._data)", ("iter(self._data)", "self._data.__iter__()", "iter(self._data.keys())")),
+                              ("__len__", "len(self._data)", ("len(self._data)", "self._data.__len__()", "len(self._data.keys())")),
+                              ("__contains__", "item in self._data", ("item in self._data", "self._data.__contains__(item)", "item in self._data.keys()"))):
         fi = _method(p, comb, name)
         rets = [n for n in ast.walk(fi.node) if isinstance(n, ast.Return)]
-        ok = len(rets) == 1 and _src(fi, rets[0].value) == want
+        ok = len(rets) == 1 and _src(fi, rets[0].value) in forms and len(fi.node.body) <= 2
         r.ob(rule + ".combined-views", fi.qualname, ok, "%s must be the plain view of the key set (%s), got `%s`" % (name, want, _src(fi, rets[0].value) if rets else None), fi.where())
     lsh = _method(p, comb, "__lshift__")
     ok = bool(_calls(lsh.node, "add_registry")) and any(isinstance(n, ast.Return) and isinstance(n.value, ast.Name) and n.value.id == "self" for n in ast.walk(lsh.node))
